@@ -19,6 +19,69 @@
 //	            constant k (as getD: every use in the list below is guarded by a length
 //	            test), s[k:], strings.HasPrefix/HasSuffix, calls of and method calls on
 //	            other translated functions
+//
+// Receiver-mutating methods (state threading). A method with a pointer receiver `*Type` or
+// `*Schema` whose body assigns through the receiver is translated with the receiver as a
+// VALUE that is threaded through the body and returned: `func (t *Type) AddAttr(a Attr) error`
+// becomes `def Type_AddAttr (t_ : Typ) (attr_ : Attr) : Typ × Res Unit`, a method without
+// result returns the new receiver only (`def Type_RemoveAttr (t_ : Typ) (attr_ : GoString) : Typ`).
+// Every statement that writes through the receiver re-binds the receiver variable (`let t_ :=
+// { t_ with … }`), every later read sees the new value. Reading conventions (trusted):
+//
+//	values      structs, maps and slices are values: the aliasing Go has between a caller's copy
+//	            and the stored one (the maps inside a `Type` passed to AddType, the backing array
+//	            of a re-sliced `s.Types`) is not modelled. `Type` is the model's `Typ` (Name,
+//	            Attrs, Rels; the field NewFunc is outside the subset: a function that mentions it
+//	            is untranslated), `Schema` is `Schema` (Types), `Rel` is `Rel`, `Attr` is the
+//	            model's `Attr` (Name/Type/Nullable are name/ty/nullable). The model keeps the
+//	            attribute kind as `ty : Nat` where Go has an `int`: a read `a.Type` is rendered
+//	            `(Int.ofNat a.ty)`, so the translated functions speak about attributes whose kind is
+//	            >= 0 only (a negative kind has no counterpart in the model); no write to it is accepted.
+//	errors      the type `error` is `Res Unit`: `nil` is `Res.ok ()`, `fmt.Errorf(…)` and
+//	            `errors.New(…)` are `Res.err` (they never return nil; the text is not modelled and
+//	            the arguments must be constants, variables or field selections, which have no
+//	            effect), `err != nil` is `err ≠ Res.ok ()`.
+//	maps        `map[string]Attr` / `map[string]Rel` are `GoMap` (association lists; the list order
+//	            stands for the iteration order the runtime picks). A nil map and an empty map are
+//	            both `[]`: the statement `if m == nil { m = map[K]V{} }` is rendered as nothing
+//	            (it only turns a nil map into an empty one) and `m == nil` is accepted nowhere
+//	            else. `m[k] = v` is `GoMap.set` and is accepted only after that statement on the
+//	            same path (a store into a nil map panics); `delete(m, k)` is `GoMap.del`.
+//	            `for i := range m { … m[i] … }`: `m[i]` is the value of the entry. A body that
+//	            neither returns nor writes to m is a `foldl` over the entries, a body `if c { return e }`
+//	            is `any`/`find?` (as for slices). A body that deletes from m is a `foldl` over the
+//	            entries m had when the loop started, each step guarded by `GoMap.has m i` in the
+//	            current state (Go does not produce an entry removed before it is reached); the
+//	            value of a surviving entry is unchanged because a body that stores into m, or
+//	            calls a receiver-mutating method, is rejected.
+//	slices      `[]Type` is `List Typ`. `append(xs, y)` is `xs ++ [y]`, `append(xs, ys...)` is
+//	            `xs ++ ys`, `xs[0:i]` is `take i`, `xs[i+1:]` is `drop (i+1)` (i the index of the
+//	            enclosing `for i := range xs`; `i+1` is the only arithmetic accepted, i < len(xs)).
+//	            A `for i := range xs` loop whose body writes through the receiver or uses i as a
+//	            value runs over `List.range (len xs)` (the length when the loop starts, as in Go);
+//	            `xs[i]` is `xs.getD i zero` read in the CURRENT state, i as a value is `Int.ofNat i`.
+//	            The translator checks that the read is in range: xs is not assigned in the loop
+//	            before the read (an assignment to xs is accepted only on a path that returns with
+//	            no further read of xs[i]). Two shapes: a body without return is a `foldl` over the
+//	            indices carrying the receiver and the assigned variables; a body that is exactly
+//	            `if c { …; return … }` (every path of the block returns, no else) is `find?` of
+//	            the first index satisfying c - the iterations before it have no effect - followed
+//	            by the block with that index.
+//	            `xs[v]` with an int variable v is `xs.getD (Int.toNat v) zero`; accepted only inside
+//	            `if v >= 0 { … }` (or the statements that follow it on the same path), for a v declared
+//	            as `v := -1` whose only other assignments are `v = i` inside `for i := range xs`,
+//	            and when xs itself is assigned nowhere in the function and no receiver-mutating
+//	            method is called on a place that contains xs - so 0 <= v < len(xs).
+//	calls       `p.M(args)` with M a translated receiver-mutating method and p a place reached from
+//	            the receiver (`s.Types[i]`, Go takes its address) computes `Gen.T_M p args` and
+//	            writes the new value of p back (`List.set`); `v := p.M(args)` binds the result as
+//	            well; `return p.M(args)` returns it with the receiver written back. Such a call is
+//	            rejected inside a loop over a map, on a place that contains the slice being ranged
+//	            over, and as an expression (its result can only be bound or returned).
+//	scoping     Go's block scoping is rendered by `let`, and the statements after an `if` that
+//	            returns on some path are repeated in each branch that goes on; a `:=` that shadows
+//	            a variable of an enclosing block of the same function is therefore rejected.
+//	            A method without result returns the receiver at the end of its body and at `return`.
 package main
 
 import (
@@ -43,6 +106,11 @@ var targets = []string{
 	"deduceRoute", "buildSelfLink", "buildRelationshipLinks",
 	"checkIn", "parseCommaList", "parseFragments",
 	"Schema.HasType", "Schema.GetType",
+	// receiver-mutating methods (state threading): the schema editing API of C14
+	"Type.AddAttr", "Type.RemoveAttr", "Type.AddRel", "Type.RemoveRel",
+	"Schema.AddType", "Schema.RemoveType",
+	"Schema.AddAttr", "Schema.RemoveAttr", "Schema.AddRel", "Schema.RemoveRel",
+	"Schema.AddTwoWayRel",
 }
 
 var (
@@ -100,6 +168,12 @@ func leanType(t types.Type, n ast.Node) string {
 			return "Schema"
 		case "Type":
 			return "Typ"
+		case "Attr":
+			return "Attr"
+		case "error":
+			if u.Obj().Pkg() == nil {
+				return "Res Unit"
+			}
 		}
 		return leanType(u.Underlying(), n)
 	case *types.Basic:
@@ -121,6 +195,11 @@ func leanType(t types.Type, n ast.Node) string {
 			return "List Typ"
 		}
 	case *types.Map:
+		if isString(u.Key()) {
+			if nm, ok := u.Elem().(*types.Named); ok && (nm.Obj().Name() == "Attr" || nm.Obj().Name() == "Rel") {
+				return "GoMap " + nm.Obj().Name()
+			}
+		}
 		return "List (GoString × GoString)"
 	case *types.Tuple:
 		parts := make([]string, u.Len())
@@ -145,6 +224,8 @@ func zeroOf(t types.Type, n ast.Node) string {
 		return "(0 : Int)"
 	case "List GoString":
 		return "([] : List GoString)"
+	case "Typ":
+		return "Typ.empty"
 	}
 	fail(n, "no zero value for %s", t)
 	return ""
@@ -178,6 +259,517 @@ type tr struct {
 	loopSlice        string // source text of xs
 	loopKey, loopVal types.Object
 	loopElem         string
+	loopMap          bool // xs is a map: elem_ is the (key, value) pair and xs[i] is elem_.2
+	// state threading (receiver-mutating methods, see the header)
+	fn               *ast.FuncDecl
+	recvObj          types.Object    // the receiver variable, when the method is translated with state threading
+	recvName         string          // its Go name
+	hasResult        bool            // the method has a result (besides the threaded receiver)
+	mutating         map[string]bool // translated state-threaded methods (lean name) -> has a result
+	nonNil           map[string]bool // maps (source text) known to be non-nil on the current path
+	nonNeg           map[types.Object]bool
+	loopIndex        bool // the current loop is in index form (runs over List.range)
+	loopDirty        bool // the ranged slice has been assigned on the current path
+	loopNoResize     bool // an assignment to the ranged slice is not accepted here
+	noImplicitReturn bool // inside a loop body: falling off the end is not a return
+	nilIsError       bool // the expression being translated is expected to be of type `error`
+}
+
+// ---------- state threading: places, indices, facts of the current path ----------
+
+func structOf(t types.Type) string {
+	if p, isP := t.(*types.Pointer); isP {
+		t = p.Elem()
+	}
+	if n, isN := t.(*types.Named); isN {
+		if _, isS := n.Underlying().(*types.Struct); isS {
+			return n.Obj().Name()
+		}
+	}
+	return ""
+}
+
+// fieldOf is the model's name of a struct field ("" when the field is outside the subset).
+func fieldOf(structName, field string) string {
+	switch structName + "." + field {
+	case "Schema.Types", "Type.Name", "Type.Attrs", "Type.Rels", "Attr.Name", "Attr.Nullable":
+		return lowerFirst(field)
+	}
+	if structName == "Rel" {
+		return lowerFirst(field)
+	}
+	return ""
+}
+
+// rooted reports whether e is the receiver or a field / element reached from it.
+func (x *tr) rooted(e ast.Expr) bool {
+	for {
+		switch v := e.(type) {
+		case *ast.ParenExpr:
+			e = v.X
+		case *ast.StarExpr:
+			e = v.X
+		case *ast.SelectorExpr:
+			e = v.X
+		case *ast.IndexExpr:
+			e = v.X
+		case *ast.Ident:
+			return x.recvObj != nil && info.Uses[v] == x.recvObj
+		default:
+			return false
+		}
+	}
+}
+
+// a place reached from the receiver: how to read it and the `let` line that stores into it
+type place struct {
+	get string
+	put func(v string) string
+}
+
+func (x *tr) place(e ast.Expr) place {
+	switch v := e.(type) {
+	case *ast.ParenExpr:
+		return x.place(v.X)
+	case *ast.StarExpr:
+		return x.place(v.X)
+	case *ast.Ident:
+		if x.recvObj != nil && info.Uses[v] == x.recvObj {
+			r := local(v.Name)
+			return place{r, func(val string) string { return "let " + r + " := " + val }}
+		}
+	case *ast.SelectorExpr:
+		if tv, ok := info.Types[v.X]; ok {
+			if f := fieldOf(structOf(tv.Type), v.Sel.Name); f != "" {
+				p := x.place(v.X)
+				return place{"(" + p.get + ")." + f, func(val string) string { return p.put("{ " + p.get + " with " + f + " := " + val + " }") }}
+			}
+		}
+	case *ast.IndexExpr:
+		if sl, ok := info.Types[v.X].Type.Underlying().(*types.Slice); ok {
+			p := x.place(v.X)
+			idx := x.index(v.Index, types.ExprString(v.X))
+			return place{"(" + p.get + ".getD " + idx + " " + zeroOf(sl.Elem(), v) + ")", func(val string) string { return p.put("(" + p.get + ".set " + idx + " " + val + ")") }}
+		}
+	}
+	fail(e, "%s is not a place reached from the receiver", types.ExprString(e))
+	return place{}
+}
+
+// index renders an index into the slice `slice` (source text) as a Nat that is in range.
+func (x *tr) index(e ast.Expr, slice string) string {
+	if id, ok := e.(*ast.Ident); ok {
+		obj := info.Uses[id]
+		if x.loopIndex && obj != nil && obj == x.loopKey {
+			if slice != x.loopSlice {
+				fail(e, "the loop index is used on another slice")
+			}
+			if x.loopDirty {
+				fail(e, "%s is read after it was assigned in the loop", slice)
+			}
+			return local(id.Name)
+		}
+		if v, isVar := obj.(*types.Var); isVar && isInteger(v.Type()) && !isUnsigned(v.Type()) {
+			if !x.nonNeg[obj] {
+				fail(e, "the index %s is not known to be >= 0 here", id.Name)
+			}
+			x.checkIndexVar(v, slice, e)
+			return "(Int.toNat " + local(id.Name) + ")"
+		}
+	}
+	fail(e, "index expression outside the subset")
+	return ""
+}
+
+// checkIndexVar: v is declared `v := <negative constant>`, every other assignment to it is
+// `v = i` inside `for i := range slice`, and slice is assigned nowhere in the function.
+func (x *tr) checkIndexVar(v *types.Var, slice string, at ast.Node) {
+	var stack []ast.Node
+	declared := false
+	ast.Inspect(x.fn.Body, func(n ast.Node) bool {
+		if n == nil {
+			stack = stack[:len(stack)-1]
+			return true
+		}
+		stack = append(stack, n)
+		switch s := n.(type) {
+		case *ast.AssignStmt:
+			for i, l := range s.Lhs {
+				if types.ExprString(l) == slice {
+					fail(at, "%s is assigned in the function: an index kept in a variable may be out of range", slice)
+				}
+				id, isId := l.(*ast.Ident)
+				if !isId || (info.Defs[id] != v && info.Uses[id] != v) {
+					continue
+				}
+				if len(s.Lhs) != len(s.Rhs) {
+					fail(s, "multiple assignment")
+				}
+				switch s.Tok {
+				case token.DEFINE:
+					tv := info.Types[s.Rhs[i]]
+					if tv.Value == nil || tv.Value.Kind() != constant.Int || constant.Sign(tv.Value) >= 0 {
+						fail(s, "index variable %s is not declared with a negative constant", id.Name)
+					}
+					declared = true
+				case token.ASSIGN:
+					okAssign := false
+					if r, isId := s.Rhs[i].(*ast.Ident); isId {
+						for _, anc := range stack {
+							if rg, isR := anc.(*ast.RangeStmt); isR && rg.Tok == token.DEFINE && rg.Value == nil && types.ExprString(rg.X) == slice {
+								if k, isK := rg.Key.(*ast.Ident); isK && info.Defs[k] != nil && info.Defs[k] == info.Uses[r] {
+									okAssign = true
+								}
+							}
+						}
+					}
+					if !okAssign {
+						fail(s, "index variable %s is assigned something else than an index of %s", id.Name, slice)
+					}
+				default:
+					fail(s, "index variable %s is modified", id.Name)
+				}
+			}
+		case *ast.CallExpr:
+			if _, recv, isM := x.mutCall(s); isM {
+				if t := types.ExprString(recv); t == slice || strings.HasPrefix(slice, t+".") {
+					fail(at, "a receiver-mutating method is called on %s: an index of %s kept in a variable may be out of range", t, slice)
+				}
+			}
+		case *ast.IncDecStmt:
+			if id, isId := s.X.(*ast.Ident); isId && info.Uses[id] == v {
+				fail(s, "index variable %s is modified", id.Name)
+			}
+		case *ast.UnaryExpr:
+			if id, isId := s.X.(*ast.Ident); isId && s.Op == token.AND && info.Uses[id] == v {
+				fail(s, "address of index variable %s", id.Name)
+			}
+		case *ast.RangeStmt:
+			for _, kv := range []ast.Expr{s.Key, s.Value} {
+				if id, isId := kv.(*ast.Ident); isId && s.Tok != token.DEFINE && info.Uses[id] == v {
+					fail(s, "index variable %s is a loop variable", id.Name)
+				}
+			}
+		}
+		return true
+	})
+	if !declared {
+		fail(at, "index variable %s is not declared as `%s := -1`", v.Name(), v.Name())
+	}
+}
+
+// assume records what the condition c tells about the path on which it is true
+// (`v >= 0`, conjunctions of it); the result undoes it.
+func (x *tr) assume(c ast.Expr) func() {
+	added := []types.Object{}
+	var walk func(e ast.Expr)
+	walk = func(e ast.Expr) {
+		switch b := e.(type) {
+		case *ast.ParenExpr:
+			walk(b.X)
+		case *ast.BinaryExpr:
+			if b.Op == token.LAND {
+				walk(b.X)
+				walk(b.Y)
+			}
+			if id, ok := b.X.(*ast.Ident); ok && b.Op == token.GEQ {
+				if tv := info.Types[b.Y]; tv.Value != nil && tv.Value.Kind() == constant.Int && constant.Sign(tv.Value) >= 0 {
+					if obj := info.Uses[id]; obj != nil && x.nonNeg != nil && !x.nonNeg[obj] {
+						x.nonNeg[obj] = true
+						added = append(added, obj)
+					}
+				}
+			}
+		}
+	}
+	walk(c)
+	return func() {
+		for _, o := range added {
+			delete(x.nonNeg, o)
+		}
+	}
+}
+
+// facts saves the path-sensitive facts; the result restores them (used around each branch).
+func (x *tr) facts() func() {
+	nn := map[string]bool{}
+	for k, v := range x.nonNil {
+		nn[k] = v
+	}
+	dirty := x.loopDirty
+	return func() {
+		x.nonNil = map[string]bool{}
+		for k, v := range nn {
+			x.nonNil[k] = v
+		}
+		x.loopDirty = dirty
+	}
+}
+
+// mutCall: is the call `p.M(args)` with M a translated receiver-mutating method?
+func (x *tr) mutCall(call *ast.CallExpr) (name string, recv ast.Expr, ok bool) {
+	sel, isSel := call.Fun.(*ast.SelectorExpr)
+	if !isSel {
+		return "", nil, false
+	}
+	fn, isFn := info.Uses[sel.Sel].(*types.Func)
+	if !isFn {
+		return "", nil, false
+	}
+	sig := fn.Type().(*types.Signature)
+	if sig.Recv() == nil {
+		return "", nil, false
+	}
+	st := structOf(sig.Recv().Type())
+	if st == "" {
+		return "", nil, false
+	}
+	name = st + "_" + fn.Name()
+	if _, known := x.mutating[name]; !known {
+		return "", nil, false
+	}
+	return name, sel.X, true
+}
+
+// callOn is run before a receiver-mutating call on the place recv is rendered: the callee may
+// do anything to that place, so nothing known about what lies below it survives, and it must not
+// contain the collection being ranged over (whose length the loop relies on).
+func (x *tr) callOn(recv ast.Expr) {
+	text := types.ExprString(recv)
+	below := func(t string) bool {
+		return t == text || strings.HasPrefix(t, text+".") || strings.HasPrefix(t, text+"[")
+	}
+	if (x.loopIndex || x.loopElem != "") && below(x.loopSlice) {
+		fail(recv, "receiver-mutating call on %s inside a loop over %s", text, x.loopSlice)
+	}
+	for k := range x.nonNil {
+		if below(k) {
+			delete(x.nonNil, k)
+		}
+	}
+}
+
+func (x *tr) args(call *ast.CallExpr) string {
+	out := ""
+	for _, a := range call.Args {
+		out += " " + x.expr(a)
+	}
+	return out
+}
+
+// mutates reports whether the node writes through the receiver.
+func (x *tr) mutates(n ast.Node) bool {
+	if x.recvObj == nil || n == nil {
+		return false
+	}
+	found := false
+	ast.Inspect(n, func(n ast.Node) bool {
+		switch v := n.(type) {
+		case *ast.AssignStmt:
+			for _, l := range v.Lhs {
+				if _, isId := l.(*ast.Ident); !isId && x.rooted(l) {
+					found = true
+				}
+			}
+		case *ast.IncDecStmt:
+			if x.rooted(v.X) {
+				found = true
+			}
+		case *ast.CallExpr:
+			if id, ok := v.Fun.(*ast.Ident); ok && id.Name == "delete" && len(v.Args) > 0 && x.rooted(v.Args[0]) {
+				found = true
+			}
+			if _, recv, ok := x.mutCall(v); ok && x.rooted(recv) {
+				found = true
+			}
+		}
+		return !found
+	})
+	return found
+}
+
+func (x *tr) mutatesList(stmts []ast.Stmt) bool {
+	for _, s := range stmts {
+		if x.mutates(s) {
+			return true
+		}
+	}
+	return false
+}
+
+// usesKeyAsValue reports whether the loop index is used other than in `xs[i]`.
+func usesKeyAsValue(body *ast.BlockStmt, key types.Object, slice string) bool {
+	found := false
+	ast.Inspect(body, func(n ast.Node) bool {
+		switch v := n.(type) {
+		case *ast.IndexExpr:
+			if id, ok := v.Index.(*ast.Ident); ok && info.Uses[id] == key && types.ExprString(v.X) == slice {
+				ast.Inspect(v.X, func(m ast.Node) bool {
+					if id, ok := m.(*ast.Ident); ok && info.Uses[id] == key {
+						found = true
+					}
+					return true
+				})
+				return false
+			}
+		case *ast.Ident:
+			if info.Uses[v] == key {
+				found = true
+			}
+		}
+		return !found
+	})
+	return found
+}
+
+// noShadow rejects a `:=` that hides a variable of an enclosing block of the function.
+func (x *tr) noShadow(id *ast.Ident) {
+	obj := info.Defs[id]
+	if obj == nil || obj.Parent() == nil || obj.Parent().Parent() == nil || x.fn == nil {
+		return
+	}
+	if _, outer := obj.Parent().Parent().LookupParent(id.Name, token.NoPos); outer != nil {
+		if _, isVar := outer.(*types.Var); isVar && outer.Pos() >= x.fn.Pos() && outer.Pos() <= x.fn.End() {
+			fail(id, "%s shadows a variable of an enclosing block", id.Name)
+		}
+	}
+}
+
+// nilInit recognises `if m == nil { m = map[K]V{} }` and returns the source text of m.
+func nilInit(s *ast.IfStmt) (string, bool) {
+	if s.Init != nil || s.Else != nil || len(s.Body.List) != 1 {
+		return "", false
+	}
+	c, ok := s.Cond.(*ast.BinaryExpr)
+	if !ok || c.Op != token.EQL || !info.Types[c.Y].IsNil() {
+		return "", false
+	}
+	if _, isMap := info.Types[c.X].Type.Underlying().(*types.Map); !isMap {
+		return "", false
+	}
+	a, ok := s.Body.List[0].(*ast.AssignStmt)
+	if !ok || a.Tok != token.ASSIGN || len(a.Lhs) != 1 || len(a.Rhs) != 1 || types.ExprString(a.Lhs[0]) != types.ExprString(c.X) {
+		return "", false
+	}
+	lit, ok := a.Rhs[0].(*ast.CompositeLit)
+	if !ok || len(lit.Elts) != 0 {
+		return "", false
+	}
+	if _, isMap := info.Types[lit].Type.Underlying().(*types.Map); !isMap {
+		return "", false
+	}
+	return types.ExprString(c.X), true
+}
+
+// effect translates a statement that writes through the receiver into the `let` lines that
+// re-bind it ("" for the nil-map initialisation); ok is false for any other statement.
+func (x *tr) effect(st ast.Stmt, ind string) (out string, ok bool) {
+	if x.recvObj == nil {
+		return "", false
+	}
+	switch s := st.(type) {
+	case *ast.ExprStmt:
+		call, isCall := s.X.(*ast.CallExpr)
+		if !isCall {
+			return "", false
+		}
+		if id, isId := call.Fun.(*ast.Ident); isId && id.Name == "delete" && len(call.Args) == 2 {
+			if _, isBuiltin := info.Uses[id].(*types.Builtin); isBuiltin {
+				p := x.place(call.Args[0])
+				return p.put("(GoMap.del " + p.get + " " + x.expr(call.Args[1]) + ")"), true
+			}
+		}
+		if name, recv, isM := x.mutCall(call); isM {
+			if x.loopMap {
+				fail(s, "receiver-mutating call inside a loop over a map")
+			}
+			if x.mutating[name] {
+				fail(s, "the result of %s is dropped", name)
+			}
+			x.callOn(recv)
+			p := x.place(recv)
+			return p.put("(Gen." + name + " " + p.get + x.args(call) + ")"), true
+		}
+	case *ast.AssignStmt:
+		if len(s.Lhs) != 1 || len(s.Rhs) != 1 {
+			return "", false
+		}
+		if call, isCall := s.Rhs[0].(*ast.CallExpr); isCall {
+			if name, recv, isM := x.mutCall(call); isM {
+				id, isId := s.Lhs[0].(*ast.Ident)
+				if !isId || !x.mutating[name] || (s.Tok != token.DEFINE && s.Tok != token.ASSIGN) {
+					fail(s, "call of %s outside the subset", name)
+				}
+				if x.loopMap {
+					fail(s, "receiver-mutating call inside a loop over a map")
+				}
+				if s.Tok == token.DEFINE {
+					x.noShadow(id)
+				}
+				x.callOn(recv)
+				p := x.place(recv)
+				return "let call' := (Gen." + name + " " + p.get + x.args(call) + ")\n" + ind + p.put("call'.1") + "\n" + ind + "let " + local(id.Name) + " := call'.2", true
+			}
+		}
+		if _, isId := s.Lhs[0].(*ast.Ident); isId || s.Tok != token.ASSIGN || !x.rooted(s.Lhs[0]) {
+			return "", false
+		}
+		if ix, isIx := s.Lhs[0].(*ast.IndexExpr); isIx {
+			if _, isMap := info.Types[ix.X].Type.Underlying().(*types.Map); !isMap {
+				fail(s, "assignment to a slice element")
+			}
+			text := types.ExprString(ix.X)
+			if !x.nonNil[text] {
+				fail(s, "store into the map %s, which may be nil here", text)
+			}
+			if x.loopMap && text == x.loopSlice {
+				fail(s, "store into the map being ranged over")
+			}
+			p := x.place(ix.X)
+			return p.put("(GoMap.set " + p.get + " " + x.expr(ix.Index) + " " + x.expr(s.Rhs[0]) + ")"), true
+		}
+		p := x.place(s.Lhs[0])
+		val := x.expr(s.Rhs[0])
+		if text := types.ExprString(s.Lhs[0]); (x.loopIndex || x.loopElem != "") && (text == x.loopSlice || strings.HasPrefix(x.loopSlice, text+".")) {
+			if !x.loopIndex || x.loopNoResize {
+				fail(s, "assignment to %s, which is being ranged over, on a path that goes on", text)
+			}
+			x.loopDirty = true
+		}
+		delete(x.nonNil, types.ExprString(s.Lhs[0]))
+		return p.put(val), true
+	case *ast.IfStmt:
+		if text, isInit := nilInit(s); isInit && x.rooted(s.Cond.(*ast.BinaryExpr).X) {
+			x.nonNil[text] = true
+			return "", true
+		}
+	}
+	return "", false
+}
+
+// stateReturn: `return`, `return e`, `return p.M(args)` of a state-threaded method.
+func (x *tr) stateReturn(s *ast.ReturnStmt, ind string) string {
+	r := local(x.recvName)
+	if len(s.Results) == 0 {
+		if x.hasResult {
+			fail(s, "return without a value")
+		}
+		return r
+	}
+	if len(s.Results) != 1 {
+		fail(s, "several results")
+	}
+	if call, ok := s.Results[0].(*ast.CallExpr); ok {
+		if name, recv, isM := x.mutCall(call); isM {
+			if !x.mutating[name] {
+				fail(s, "%s has no result", name)
+			}
+			p := x.place(recv)
+			return "let call' := (Gen." + name + " " + p.get + x.args(call) + ")\n" + ind + p.put("call'.1") + "\n" + ind + "(" + r + ", call'.2)"
+		}
+	}
+	resT := x.fn.Type.Results.List[0].Type
+	return "(" + r + ", " + x.exprAs(s.Results[0], isError(resT)) + ")"
 }
 
 func (x *tr) constant(e ast.Expr) (string, bool) {
@@ -215,12 +807,23 @@ func (x *tr) expr(e ast.Expr) string {
 		switch v.Name {
 		case "true", "false":
 			return v.Name
+		case "nil":
+			if tv, ok := info.Types[v]; ok && tv.IsNil() && x.nilIsError {
+				return "(Res.ok () : Res Unit)"
+			}
+			fail(v, "nil of a type other than error")
 		}
 		if obj := info.Uses[v]; obj != nil {
+			if x.loopIndex && x.loopKey != nil && obj == x.loopKey {
+				return "(Int.ofNat " + local(v.Name) + ")"
+			}
 			if x.loopElem != "" && x.loopKey != nil && obj == x.loopKey {
 				fail(v, "the loop index is used other than to read the current element")
 			}
 			if x.loopElem != "" && x.loopVal != nil && obj == x.loopVal {
+				if x.loopMap {
+					return x.loopElem + ".2"
+				}
 				return x.loopElem
 			}
 			if _, isVar := obj.(*types.Var); isVar {
@@ -253,8 +856,10 @@ func (x *tr) expr(e ast.Expr) string {
 			if n, isN := t.(*types.Named); isN {
 				if _, isS := n.Underlying().(*types.Struct); isS {
 					switch n.Obj().Name() + "." + v.Sel.Name {
-					case "Schema.Types", "Type.Name", "Type.Attrs", "Type.Rels":
+					case "Schema.Types", "Type.Name", "Type.Attrs", "Type.Rels", "Attr.Name", "Attr.Nullable":
 						return "(" + x.expr(v.X) + ")." + lowerFirst(v.Sel.Name)
+					case "Attr.Type": // the model keeps the kind as a Nat (header: values)
+						return "(Int.ofNat (" + x.expr(v.X) + ").ty)"
 					}
 					if n.Obj().Name() == "Rel" {
 						return "(" + x.expr(v.X) + ")." + lowerFirst(v.Sel.Name)
@@ -301,8 +906,14 @@ func (x *tr) expr(e ast.Expr) string {
 	case *ast.IndexExpr:
 		if x.loopElem != "" && x.loopKey != nil {
 			if k, ok := v.Index.(*ast.Ident); ok && types.ExprString(v.X) == x.loopSlice && info.Uses[k] == x.loopKey {
+				if x.loopMap {
+					return x.loopElem + ".2"
+				}
 				return x.loopElem
 			}
+		}
+		if sl, ok := info.Types[v.X].Type.Underlying().(*types.Slice); ok && x.recvObj != nil && info.Types[v.Index].Value == nil {
+			return "(" + x.expr(v.X) + ".getD " + x.index(v.Index, types.ExprString(v.X)) + " " + zeroOf(sl.Elem(), v) + ")"
 		}
 		if _, ok := info.Types[v.X].Type.Underlying().(*types.Slice); ok {
 			if tv := info.Types[v.Index]; tv.Value != nil {
@@ -318,6 +929,36 @@ func (x *tr) expr(e ast.Expr) string {
 				return fmt.Sprintf("(%s.drop %d)", x.expr(v.X), k)
 			}
 		}
+		if _, ok := info.Types[v.X].Type.Underlying().(*types.Slice); ok && x.recvObj != nil && !v.Slice3 {
+			// xs[0:i], xs[i+1:] with i the index of the enclosing loop over xs: both bounds are <= len(xs)
+			xs, text := x.expr(v.X), types.ExprString(v.X)
+			bound := func(e ast.Expr) string {
+				if b, ok := e.(*ast.BinaryExpr); ok && b.Op == token.ADD {
+					if tv := info.Types[b.Y]; tv.Value != nil && tv.Value.ExactString() == "1" {
+						if id, ok := b.X.(*ast.Ident); ok && x.loopIndex && info.Uses[id] == x.loopKey {
+							return "(" + x.index(b.X, text) + " + 1)"
+						}
+					}
+				}
+				if id, ok := e.(*ast.Ident); ok && x.loopIndex && info.Uses[id] == x.loopKey {
+					return x.index(e, text)
+				}
+				fail(e, "slice bound outside the subset")
+				return ""
+			}
+			lowZero := v.Low == nil
+			if v.Low != nil {
+				if tv := info.Types[v.Low]; tv.Value != nil && tv.Value.ExactString() == "0" {
+					lowZero = true
+				}
+			}
+			switch {
+			case lowZero && v.High != nil:
+				return "(" + xs + ".take " + bound(v.High) + ")"
+			case !lowZero && v.High == nil:
+				return "(" + xs + ".drop " + bound(v.Low) + ")"
+			}
+		}
 		fail(v, "slice expression")
 	case *ast.CallExpr:
 		return x.call(v)
@@ -326,7 +967,25 @@ func (x *tr) expr(e ast.Expr) string {
 	return ""
 }
 
+// isError: the type of e is the interface `error`
+func isError(e ast.Expr) bool {
+	tv, ok := info.Types[e]
+	return ok && tv.Type != nil && types.Identical(tv.Type, types.Universe.Lookup("error").Type())
+}
+
+// exprAs translates e where a value of type `error` is expected when asError holds (so that
+// the untyped `nil` is the nil error).
+func (x *tr) exprAs(e ast.Expr, asError bool) string {
+	defer func(old bool) { x.nilIsError = old }(x.nilIsError)
+	x.nilIsError = asError
+	return x.expr(e)
+}
+
 func (x *tr) binary(v *ast.BinaryExpr) string {
+	if (v.Op == token.EQL || v.Op == token.NEQ) && (isError(v.X) || isError(v.Y)) {
+		op := map[token.Token]string{token.EQL: " = ", token.NEQ: " ≠ "}[v.Op]
+		return "(decide (" + x.exprAs(v.X, true) + op + x.exprAs(v.Y, true) + "))"
+	}
 	a, b := x.expr(v.X), x.expr(v.Y)
 	ta := info.Types[v.X].Type
 	switch v.Op {
@@ -375,6 +1034,9 @@ func (x *tr) call(v *ast.CallExpr) string {
 		if f.Name == "append" && len(v.Args) == 2 && !v.Ellipsis.IsValid() {
 			return "(" + x.expr(v.Args[0]) + " ++ [" + x.expr(v.Args[1]) + "])"
 		}
+		if f.Name == "append" && len(v.Args) == 2 && v.Ellipsis.IsValid() && x.recvObj != nil {
+			return "(" + x.expr(v.Args[0]) + " ++ " + x.expr(v.Args[1]) + ")"
+		}
 		if f.Name == "make" && len(v.Args) >= 2 && leanType(info.Types[v].Type, v) == "List GoString" {
 			if tv := info.Types[v.Args[1]]; tv.Value != nil && tv.Value.ExactString() == "0" {
 				return "([] : List GoString)"
@@ -392,6 +1054,23 @@ func (x *tr) call(v *ast.CallExpr) string {
 		if pkg, ok := f.X.(*ast.Ident); ok {
 			if _, isPkg := info.Uses[pkg].(*types.PkgName); isPkg {
 				switch pkg.Name + "." + f.Sel.Name {
+				case "fmt.Errorf", "errors.New":
+					// never nil; the text is not modelled, the arguments must be free of effects
+					for _, a := range v.Args {
+						e := a
+						for {
+							if sel, ok := e.(*ast.SelectorExpr); ok {
+								e = sel.X
+								continue
+							}
+							break
+						}
+						_, isId := e.(*ast.Ident)
+						if tv := info.Types[a]; !isId && tv.Value == nil {
+							fail(a, "argument of %s.%s", pkg.Name, f.Sel.Name)
+						}
+					}
+					return "(Res.err : Res Unit)"
 				case "strings.HasPrefix":
 					return "(hasPrefix " + x.expr(v.Args[0]) + " " + x.expr(v.Args[1]) + ")"
 				case "strings.HasSuffix":
@@ -440,7 +1119,10 @@ func returns(stmts []ast.Stmt) bool {
 }
 
 // assigned collects the variables assigned (not declared) in the statement list.
-func assigned(stmts []ast.Stmt, out map[string]bool) {
+func (x *tr) assigned(stmts []ast.Stmt, out map[string]bool) {
+	if x.mutatesList(stmts) {
+		out[x.recvName] = true
+	}
 	for _, s := range stmts {
 		ast.Inspect(s, func(n ast.Node) bool {
 			if a, ok := n.(*ast.AssignStmt); ok && a.Tok != token.DEFINE {
@@ -506,6 +1188,17 @@ func (x *tr) assignOnly(stmts []ast.Stmt, vars []string, ind string) string {
 		return tuple(vars)
 	}
 	rest := func() string { return x.assignOnly(stmts[1:], vars, ind) }
+	if x.recvObj != nil {
+		// these statements go on after themselves: the ranged slice must keep its length
+		defer func(old bool) { x.loopNoResize = old }(x.loopNoResize)
+		x.loopNoResize = true
+		if out, ok := x.effect(stmts[0], ind); ok {
+			if out == "" {
+				return rest()
+			}
+			return out + "\n" + ind + rest()
+		}
+	}
 	switch s := stmts[0].(type) {
 	case *ast.AssignStmt:
 		return x.assign(s, ind) + "\n" + ind + rest()
@@ -519,15 +1212,25 @@ func (x *tr) assignOnly(stmts []ast.Stmt, vars []string, ind string) string {
 		if s.Else != nil {
 			els = elseStmts(s.Else)
 		}
-		return "let " + tuple(vars) + " := (if " + x.expr(s.Cond) + " then\n" + ind + "    (" + x.assignOnly(s.Body.List, vars, ind+"    ") + ")\n" +
-			ind + "  else\n" + ind + "    (" + x.assignOnly(els, vars, ind+"    ") + "))\n" + ind + rest()
+		cond := x.expr(s.Cond)
+		undo, back := x.assume(s.Cond), x.facts()
+		thenS := x.assignOnly(s.Body.List, vars, ind+"    ")
+		undo()
+		back()
+		elseS := x.assignOnly(els, vars, ind+"    ")
+		back()
+		return "let " + tuple(vars) + " := (if " + cond + " then\n" + ind + "    (" + thenS + ")\n" +
+			ind + "  else\n" + ind + "    (" + elseS + "))\n" + ind + rest()
 	case *ast.SwitchStmt:
 		conds, bodies, def := x.clauses(s)
 		out := ""
+		back := x.facts()
 		for i := range conds {
 			out += "if " + conds[i] + " then\n" + ind + "    (" + x.assignOnly(bodies[i], vars, ind+"    ") + ")\n" + ind + "  else "
+			back()
 		}
 		out += "(" + x.assignOnly(def, vars, ind+"    ") + ")"
+		back()
 		return "let " + tuple(vars) + " := (" + out + ")\n" + ind + rest()
 	}
 	fail(stmts[0], "statement %T", stmts[0])
@@ -565,6 +1268,12 @@ func (x *tr) assign(s *ast.AssignStmt, ind string) string {
 	id, ok := s.Lhs[0].(*ast.Ident)
 	if !ok {
 		fail(s, "assignment to a non-variable")
+	}
+	if x.recvObj != nil && s.Tok == token.DEFINE {
+		x.noShadow(id)
+	}
+	if x.recvObj != nil && info.Uses[id] == x.recvObj {
+		fail(s, "assignment to the receiver variable")
 	}
 	switch s.Tok {
 	case token.DEFINE, token.ASSIGN:
@@ -608,11 +1317,23 @@ func (x *tr) decl(s *ast.DeclStmt, ind string) string {
 // block translates statements every path of which ends in a return.
 func (x *tr) block(stmts []ast.Stmt, ind string) string {
 	if len(stmts) == 0 {
+		if x.recvObj != nil && !x.hasResult && !x.noImplicitReturn {
+			return local(x.recvName) // the end of the body of a method without result
+		}
 		fail(nil, "a path does not end in a return")
 	}
 	rest := func() string { return x.block(stmts[1:], ind) }
+	if out, ok := x.effect(stmts[0], ind); ok {
+		if out == "" {
+			return rest()
+		}
+		return out + "\n" + ind + rest()
+	}
 	switch s := stmts[0].(type) {
 	case *ast.ReturnStmt:
+		if x.recvObj != nil {
+			return x.stateReturn(s, ind)
+		}
 		parts := make([]string, len(s.Results))
 		for i := range s.Results {
 			parts[i] = x.expr(s.Results[i])
@@ -635,8 +1356,8 @@ func (x *tr) block(stmts []ast.Stmt, ind string) string {
 		}
 		if !returns(s.Body.List) && !returns(els) {
 			vars := map[string]bool{}
-			assigned(s.Body.List, vars)
-			assigned(els, vars)
+			x.assigned(s.Body.List, vars)
+			x.assigned(els, vars)
 			vs := make([]string, 0, len(vars))
 			for v := range vars {
 				vs = append(vs, v)
@@ -650,7 +1371,14 @@ func (x *tr) block(stmts []ast.Stmt, ind string) string {
 		// a branch returns: the statements after the `if` continue each branch that does not
 		thenB := append(append([]ast.Stmt{}, s.Body.List...), stmts[1:]...)
 		elseB := append(append([]ast.Stmt{}, els...), stmts[1:]...)
-		return "if " + x.expr(s.Cond) + " then\n" + ind + "  " + x.block(thenB, ind+"  ") + "\n" + ind + "else\n" + ind + "  " + x.block(elseB, ind+"  ")
+		cond := x.expr(s.Cond)
+		undo, back := x.assume(s.Cond), x.facts()
+		thenS := x.block(thenB, ind+"  ")
+		undo()
+		back()
+		elseS := x.block(elseB, ind+"  ")
+		back()
+		return "if " + cond + " then\n" + ind + "  " + thenS + "\n" + ind + "else\n" + ind + "  " + elseS
 	case *ast.SwitchStmt:
 		conds, bodies, def := x.clauses(s)
 		anyRet := returns(def)
@@ -660,9 +1388,9 @@ func (x *tr) block(stmts []ast.Stmt, ind string) string {
 		if !anyRet {
 			vars := map[string]bool{}
 			for _, b := range bodies {
-				assigned(b, vars)
+				x.assigned(b, vars)
 			}
-			assigned(def, vars)
+			x.assigned(def, vars)
 			vs := make([]string, 0, len(vars))
 			for v := range vars {
 				vs = append(vs, v)
@@ -674,12 +1402,16 @@ func (x *tr) block(stmts []ast.Stmt, ind string) string {
 			return x.joinSwitch(conds, bodies, def, vs, ind) + rest()
 		}
 		out := ""
+		back := x.facts()
 		for i := range conds {
 			b := append(append([]ast.Stmt{}, bodies[i]...), stmts[1:]...)
 			out += "if " + conds[i] + " then\n" + ind + "  " + x.block(b, ind+"  ") + "\n" + ind + "else "
+			back()
 		}
 		d := append(append([]ast.Stmt{}, def...), stmts[1:]...)
-		return out + "\n" + ind + "  " + x.block(d, ind+"  ")
+		dS := x.block(d, ind+"  ")
+		back()
+		return out + "\n" + ind + "  " + dS
 	case *ast.RangeStmt:
 		return x.rangeStmt(s, stmts[1:], ind, true)
 	}
@@ -690,8 +1422,19 @@ func (x *tr) block(stmts []ast.Stmt, ind string) string {
 // rangeStmt: `for i := range xs { ... }` reading xs[i] only, or `for _, v := range xs { ... }`.
 func (x *tr) rangeStmt(s *ast.RangeStmt, after []ast.Stmt, ind string, mustReturn bool) string {
 	lt := leanType(info.Types[s.X].Type, s)
-	if s.Tok != token.DEFINE || x.loopElem != "" || !strings.HasPrefix(lt, "List ") {
+	if s.Tok != token.DEFINE || x.loopElem != "" || x.loopIndex || !(strings.HasPrefix(lt, "List ") || strings.HasPrefix(lt, "GoMap ")) {
 		fail(s, "range statement outside the subset")
+	}
+	_, isMap := info.Types[s.X].Type.Underlying().(*types.Map)
+	if x.recvObj != nil && !isMap && s.Value == nil {
+		if key, ok := s.Key.(*ast.Ident); ok && key.Name != "_" {
+			if x.mutates(s.Body) || usesKeyAsValue(s.Body, info.Defs[key], types.ExprString(s.X)) {
+				return x.indexLoop(s, key, after, ind, mustReturn)
+			}
+		}
+	}
+	if x.recvObj != nil && x.mutates(s.Body) && (!isMap || returns(s.Body.List)) {
+		fail(s, "loop that writes through the receiver outside the subset")
 	}
 	var keyObj, valObj types.Object
 	if key, ok := s.Key.(*ast.Ident); ok && key.Name != "_" {
@@ -708,8 +1451,12 @@ func (x *tr) rangeStmt(s *ast.RangeStmt, after []ast.Stmt, ind string, mustRetur
 		fail(s, "range statement outside the subset")
 	}
 	xs := x.expr(s.X)
-	x.loopSlice, x.loopKey, x.loopVal, x.loopElem = types.ExprString(s.X), keyObj, valObj, "elem_"
-	leave := func() { x.loopSlice, x.loopKey, x.loopVal, x.loopElem = "", nil, nil, "" }
+	x.loopSlice, x.loopKey, x.loopVal, x.loopElem, x.loopMap = types.ExprString(s.X), keyObj, valObj, "elem_", isMap
+	oldNoImplicit := x.noImplicitReturn
+	x.noImplicitReturn = true
+	leave := func() {
+		x.loopSlice, x.loopKey, x.loopVal, x.loopElem, x.loopMap, x.noImplicitReturn = "", nil, nil, "", false, oldNoImplicit
+	}
 	defer leave()
 	body := s.Body.List
 	if returns(body) {
@@ -718,7 +1465,9 @@ func (x *tr) rangeStmt(s *ast.RangeStmt, after []ast.Stmt, ind string, mustRetur
 			if ifs, ok := body[0].(*ast.IfStmt); ok && ifs.Init == nil && ifs.Else == nil && len(ifs.Body.List) == 1 {
 				if ret, ok := ifs.Body.List[0].(*ast.ReturnStmt); ok && mustReturn {
 					cond := x.expr(ifs.Cond)
+					back := x.facts()
 					found := x.block([]ast.Stmt{ret}, ind+"  ")
+					back()
 					leave()
 					rest := x.block(after, ind+"  ")
 					if strings.Contains(found, "elem_") {
@@ -731,7 +1480,7 @@ func (x *tr) rangeStmt(s *ast.RangeStmt, after []ast.Stmt, ind string, mustRetur
 		fail(s, "loop with a return outside the subset")
 	}
 	vars := map[string]bool{}
-	assigned(body, vars)
+	x.assigned(body, vars)
 	vs := make([]string, 0, len(vars))
 	for v := range vars {
 		vs = append(vs, v)
@@ -740,7 +1489,14 @@ func (x *tr) rangeStmt(s *ast.RangeStmt, after []ast.Stmt, ind string, mustRetur
 	if len(vs) == 0 {
 		fail(s, "loop without effect")
 	}
+	back := x.facts()
 	step := x.assignOnly(body, vs, ind+"    ")
+	back()
+	if isMap && x.mutates(s.Body) {
+		// the body deletes from the map it ranges over (a store is rejected by effect): an
+		// entry removed before it is reached is not produced
+		step = "if (GoMap.has " + x.expr(s.X) + " elem_.1) then\n" + ind + "      (" + strings.ReplaceAll(step, "\n", "\n  ") + ")\n" + ind + "    else\n" + ind + "      " + tuple(vs)
+	}
 	leave()
 	out := "let " + tuple(vs) + " := (" + xs + ").foldl (fun " + tuple(vs) + " elem_ =>\n" + ind + "    " + step + ") " + tuple(vs) + "\n" + ind
 	if mustReturn {
@@ -749,17 +1505,79 @@ func (x *tr) rangeStmt(s *ast.RangeStmt, after []ast.Stmt, ind string, mustRetur
 	return out
 }
 
+// indexLoop: `for i := range xs { ... }` over a slice reached from the receiver, whose body
+// writes through the receiver or uses i as a value: the loop runs over List.range (len xs).
+func (x *tr) indexLoop(s *ast.RangeStmt, key *ast.Ident, after []ast.Stmt, ind string, mustReturn bool) string {
+	n := "(List.range (" + x.expr(s.X) + ").length)"
+	i := local(key.Name)
+	x.loopSlice, x.loopKey, x.loopIndex, x.loopDirty = types.ExprString(s.X), info.Defs[key], true, false
+	oldNoImplicit, oldNoResize := x.noImplicitReturn, x.loopNoResize
+	x.noImplicitReturn = true
+	leave := func() {
+		x.loopSlice, x.loopKey, x.loopIndex, x.loopDirty, x.noImplicitReturn, x.loopNoResize = "", nil, false, false, oldNoImplicit, oldNoResize
+	}
+	defer leave()
+	body := s.Body.List
+	if returns(body) {
+		// exactly `if c { ...; return ... }`: the iterations before the first index satisfying c
+		// do nothing, that one runs the block, which returns on every path
+		if len(body) == 1 && mustReturn {
+			if ifs, ok := body[0].(*ast.IfStmt); ok && ifs.Init == nil && ifs.Else == nil {
+				cond := x.expr(ifs.Cond)
+				x.loopNoResize = false
+				back := x.facts()
+				found := x.block(ifs.Body.List, ind+"  ")
+				back()
+				leave()
+				rest := x.block(after, ind+"  ")
+				return "match " + n + ".find? (fun " + i + " => " + cond + ") with\n" + ind + "| some " + i + " =>\n" + ind + "  " + found + "\n" + ind + "| none =>\n" + ind + "  " + rest
+			}
+		}
+		fail(s, "loop with a return outside the subset")
+	}
+	vars := map[string]bool{}
+	x.assigned(body, vars)
+	vs := make([]string, 0, len(vars))
+	for v := range vars {
+		vs = append(vs, v)
+	}
+	sort.Strings(vs)
+	if len(vs) == 0 {
+		fail(s, "loop without effect")
+	}
+	x.loopNoResize = true
+	back := x.facts()
+	step := x.assignOnly(body, vs, ind+"    ")
+	back()
+	leave()
+	out := "let " + tuple(vs) + " := " + n + ".foldl (fun " + tuple(vs) + " " + i + " =>\n" + ind + "    " + step + ") " + tuple(vs) + "\n" + ind
+	if mustReturn {
+		return out + x.block(after, ind)
+	}
+	return out
+}
+
 func (x *tr) joinIf(s *ast.IfStmt, els []ast.Stmt, vs []string, ind string) string {
-	return "let " + tuple(vs) + " := (if " + x.expr(s.Cond) + " then\n" + ind + "    (" + x.assignOnly(s.Body.List, vs, ind+"    ") + ")\n" +
-		ind + "  else\n" + ind + "    (" + x.assignOnly(els, vs, ind+"    ") + "))\n" + ind
+	cond := x.expr(s.Cond)
+	undo, back := x.assume(s.Cond), x.facts()
+	thenS := x.assignOnly(s.Body.List, vs, ind+"    ")
+	undo()
+	back()
+	elseS := x.assignOnly(els, vs, ind+"    ")
+	back()
+	return "let " + tuple(vs) + " := (if " + cond + " then\n" + ind + "    (" + thenS + ")\n" +
+		ind + "  else\n" + ind + "    (" + elseS + "))\n" + ind
 }
 
 func (x *tr) joinSwitch(conds []string, bodies [][]ast.Stmt, def []ast.Stmt, vs []string, ind string) string {
 	out := ""
+	back := x.facts()
 	for i := range conds {
 		out += "if " + conds[i] + " then\n" + ind + "    (" + x.assignOnly(bodies[i], vs, ind+"    ") + ")\n" + ind + "  else "
+		back()
 	}
 	out += "(" + x.assignOnly(def, vs, ind+"    ") + ")"
+	back()
 	return "let " + tuple(vs) + " := (" + out + ")\n" + ind
 }
 
@@ -775,6 +1593,27 @@ func (x *tr) function(target string, d *ast.FuncDecl) (out string, err string) {
 			err = u.why
 		}
 	}()
+	x.fn, x.recvObj, x.recvName, x.hasResult = d, nil, "", false
+	x.nonNil, x.nonNeg = map[string]bool{}, map[types.Object]bool{}
+	x.loopSlice, x.loopKey, x.loopVal, x.loopElem, x.loopMap = "", nil, nil, "", false
+	x.loopIndex, x.loopDirty, x.loopNoResize, x.noImplicitReturn = false, false, false, false
+	if x.mutating == nil {
+		x.mutating = map[string]bool{}
+	}
+	recvT := ""
+	if d.Recv != nil && len(d.Recv.List) == 1 && len(d.Recv.List[0].Names) == 1 {
+		rt := info.Types[d.Recv.List[0].Type].Type
+		if st := structOf(rt); st == "Type" || st == "Schema" {
+			x.recvObj, x.recvName = info.Defs[d.Recv.List[0].Names[0]], d.Recv.List[0].Names[0].Name
+			if !x.mutates(d.Body) {
+				x.recvObj, x.recvName = nil, "" // a pure method: translated as before
+			} else if _, isPtr := rt.(*types.Pointer); !isPtr {
+				fail(d, "writes through a value receiver")
+			} else {
+				recvT = leanType(rt, d)
+			}
+		}
+	}
 	params := []string{}
 	add := func(fl *ast.FieldList) {
 		if fl == nil {
@@ -789,17 +1628,32 @@ func (x *tr) function(target string, d *ast.FuncDecl) (out string, err string) {
 	}
 	add(d.Recv)
 	add(d.Type.Params)
-	if d.Type.Results == nil {
+	if d.Type.Results == nil && x.recvObj == nil {
 		fail(d, "no result")
 	}
 	res := []string{}
-	for _, f := range d.Type.Results.List {
-		if len(f.Names) > 0 {
-			fail(d, "named results")
+	if x.recvObj != nil {
+		res = append(res, recvT)
+	}
+	if d.Type.Results != nil {
+		for _, f := range d.Type.Results.List {
+			if len(f.Names) > 0 {
+				fail(d, "named results")
+			}
+			res = append(res, leanType(info.Types[f.Type].Type, f))
 		}
-		res = append(res, leanType(info.Types[f.Type].Type, f))
+	}
+	if x.recvObj != nil {
+		if len(res) > 2 {
+			fail(d, "several results")
+		}
+		x.hasResult = len(res) == 2
 	}
 	body := x.block(d.Body.List, "  ")
+	if x.recvObj != nil {
+		x.mutating[leanName(target)] = x.hasResult
+		x.recvObj = nil
+	}
 	pos := fset.Position(d.Pos())
 	return fmt.Sprintf("/-- %s:%d `%s` -/\ndef %s %s : %s :=\n  %s\n", strings.TrimPrefix(pos.Filename, os.Args[1]+"/"), pos.Line, target,
 		leanName(target), strings.Join(params, " "), strings.Join(res, " × "), body), ""
